@@ -6,6 +6,7 @@ import (
 	"context"
 	"fmt"
 	"os"
+	"runtime"
 	"strings"
 	"sync"
 	"testing"
@@ -49,9 +50,11 @@ func runFollower(t *rapid.T, focus string) {
 
 	var llog []lentry // the (current) leader's log
 	term := int64(-1)
+	refusedTerm := int64(-2) // the term in which the leader refused this follower (no stream in that term)
 	var stream *repClient
 	sentNext := int64(0)
 	acked := int64(-1) // highest contiguous offset acknowledged to the current leader
+	ackSet := map[int64]bool{}
 	advertised := int64(-1)
 	tagN := 0
 	unsyncedAtFence, redelivered, truncated, diverged := false, false, false, false
@@ -61,6 +64,10 @@ func runFollower(t *rapid.T, focus string) {
 	var gate chan struct{}
 	parkedCh := make(chan struct{}, 16)
 	f.walF.SetGates(nil, nil, func() {
+		// only the follower's replicate-sync goroutine is parked (NewTerm syncs the WAL itself)
+		if !calledFrom("handleReplicateSync") {
+			return
+		}
 		gateMu.Lock()
 		g := gate
 		gate = nil
@@ -95,12 +102,11 @@ func runFollower(t *rapid.T, focus string) {
 		for {
 			select {
 			case a := <-stream.s.toLeader:
-				if a.Offset == acked+1 {
-					acked = a.Offset
-				} else if a.Offset > acked+1 {
-					// acks arrive in offset order on one stream; a gap means an entry was skipped
-					c.wire.violation("C03: follower acknowledged offset %d right after %d on one stream", a.Offset, acked)
-					acked = a.Offset
+				// acks may arrive out of order (a re-delivered entry is acknowledged when it becomes durable):
+				// the leader counts each offset separately; "acked" is the contiguous acknowledged prefix
+				ackSet[a.Offset] = true
+				for ackSet[acked+1] {
+					acked++
 				}
 				if acked > advertised {
 					advertised = acked
@@ -162,7 +168,11 @@ func runFollower(t *rapid.T, focus string) {
 			res, err := f.rpc().NewTerm(context.Background(), &proto.NewTermRequest{Namespace: nsName, Shard: shardID, Term: term,
 				Options: &proto.NewTermOptions{EnableNotifications: true}})
 			if err != nil {
-				t.Fatalf("%s: NewTerm(%d) refused: %v; steps=%v", focus, term, err, hist)
+				// e.g. the node is in the middle of a role change triggered by the stream that was just opened:
+				// the coordinator would retry later
+				logf("NewTerm(%d) refused: %v", term, err)
+				term--
+				return
 			}
 			head := res.HeadEntryId
 			c.hist.add(Event{Kind: "newterm.answered", From: "f", To: coordName, Term: term, Head: head})
@@ -185,36 +195,39 @@ func runFollower(t *rapid.T, focus string) {
 			// what the real leader does with the follower's head (truncateFollowerIfNeeded)
 			fh := head
 			acked = -1
-			if len(llog) == 0 {
-				if fh.Offset >= 0 {
-					// nothing committed yet and the leader has an empty log: truncate everything
-					tr, err := lrpc.Truncate("f", &proto.TruncateRequest{Namespace: nsName, Shard: shardID, Term: term, HeadEntryId: &proto.EntryId{Term: -1, Offset: -1}})
-					if err == nil {
-						fh = tr.HeadEntryId
-						truncated = true
+			ackSet = map[int64]bool{}
+			lh := &proto.EntryId{Term: -1, Offset: -1}
+			if len(llog) > 0 {
+				lh = &proto.EntryId{Term: llog[len(llog)-1].term, Offset: int64(len(llog)) - 1}
+			}
+			if fh.Term > lh.Term {
+				// a follower whose head is of a higher term than the leader's head is refused by the real leader
+				// (the coordinator would have elected it instead): no stream in this term
+				logf("leader refuses follower (head term %d > leader head term %d)", fh.Term, lh.Term)
+				if stream != nil {
+					stream.s.breakStream(errUnavailable)
+					stream = nil
+				}
+				refusedTerm = term
+				return
+			}
+			if !(fh.Term == lh.Term && fh.Offset <= lh.Offset) {
+				// highest leader entry with term <= follower head term
+				last := &proto.EntryId{Term: -1, Offset: -1}
+				for o := int64(len(llog)) - 1; o >= 0; o-- {
+					if llog[o].term <= fh.Term {
+						last = &proto.EntryId{Term: llog[o].term, Offset: o}
+						break
 					}
 				}
-			} else {
-				lh := &proto.EntryId{Term: llog[len(llog)-1].term, Offset: int64(len(llog)) - 1}
-				need := !(fh.Term == lh.Term && fh.Offset <= lh.Offset)
-				if need && fh.Term <= lh.Term {
-					// highest leader entry with term <= follower head term
-					last := &proto.EntryId{Term: -1, Offset: -1}
-					for o := int64(len(llog)) - 1; o >= 0; o-- {
-						if llog[o].term <= fh.Term {
-							last = &proto.EntryId{Term: llog[o].term, Offset: o}
-							break
-						}
+				if !(fh.Term == last.Term && fh.Offset <= last.Offset) {
+					tr, err := lrpc.Truncate("f", &proto.TruncateRequest{Namespace: nsName, Shard: shardID, Term: term, HeadEntryId: last})
+					if err != nil {
+						t.Fatalf("%s: Truncate refused: %v; steps=%v", focus, err, hist)
 					}
-					if !(fh.Term == last.Term && fh.Offset <= last.Offset) {
-						tr, err := lrpc.Truncate("f", &proto.TruncateRequest{Namespace: nsName, Shard: shardID, Term: term, HeadEntryId: last})
-						if err != nil {
-							t.Fatalf("%s: Truncate refused: %v; steps=%v", focus, err, hist)
-						}
-						fh = tr.HeadEntryId
-						truncated = true
-						logf("Truncate->(%d,%d)", fh.Term, fh.Offset)
-					}
+					fh = tr.HeadEntryId
+					truncated = true
+					logf("Truncate->(%d,%d)", fh.Term, fh.Offset)
 				}
 			}
 			if fh.Offset >= int64(len(llog)) {
@@ -248,8 +261,8 @@ func runFollower(t *rapid.T, focus string) {
 			time.Sleep(time.Duration(rapid.IntRange(0, 3).Draw(t, "afterSendMs")) * time.Millisecond)
 		},
 		"reconnect": func(t *rapid.T) {
-			if term < 0 {
-				t.Skip("no leader")
+			if term < 0 || term == refusedTerm {
+				t.Skip("no leader / follower refused in this term")
 			}
 			drain()
 			if sentNext > acked+1 {
@@ -283,13 +296,13 @@ func runFollower(t *rapid.T, focus string) {
 	})
 	releaseAll()
 	// let the follower finish what it has received
-	deadline := time.Now().Add(3 * time.Second)
+	deadline := time.Now().Add(500 * time.Millisecond)
 	for time.Now().Before(deadline) {
 		drain()
 		if stream == nil || acked >= sentNext-1 {
 			break
 		}
-		time.Sleep(2 * time.Millisecond)
+		time.Sleep(time.Millisecond)
 	}
 	check("end")
 	// every acknowledged offset holds exactly the current leader's entry
@@ -327,3 +340,20 @@ func runFollower(t *rapid.T, focus string) {
 
 func TestC03_Follower(t *testing.T) { rapid.Check(t, func(t *rapid.T) { runFollower(t, "C03") }) }
 func TestC04_Follower(t *testing.T) { rapid.Check(t, func(t *rapid.T) { runFollower(t, "C04") }) }
+
+
+// calledFrom tells whether a function whose name contains name is on the current goroutine's stack.
+func calledFrom(name string) bool {
+	pcs := make([]uintptr, 32)
+	n := runtime.Callers(2, pcs)
+	frames := runtime.CallersFrames(pcs[:n])
+	for {
+		fr, more := frames.Next()
+		if strings.Contains(fr.Function, name) {
+			return true
+		}
+		if !more {
+			return false
+		}
+	}
+}
